@@ -143,6 +143,7 @@
 (declare-fun delayElided (World) World)
 (declare-fun etaReduced (World) World)
 (declare-fun printed (Ref World) World)
+(declare-fun passesApplied (Ref World) World) ; phase 1 over one file (passes 0-3, YieldFrom, consumer loops, type replacement), abstract
 (declare-fun fileUsesSeq (Ref) Bool)
 (declare-fun funcType (Ref) Iface)
 (declare-fun sigTParams (Ref) Ref)
